@@ -71,7 +71,9 @@ impl DeferredRead {
                         self.vec.capacity(),
                         h.variation,
                         h.details.qualifier()
-                    )
+                    );
+                    // as for a READ answered from idle: the headers beyond the limit are reported
+                    iin2 |= Iin2::PARAMETER_ERROR;
                 }
             } else {
                 iin2 = Iin2::PARAMETER_ERROR;
